@@ -345,6 +345,7 @@ mzd_t *mzd_from_jcf(const char *fn, int verbose) {
       m4ri_die("trying to write to (%ld,%ld) in %ld x %ld matrix\n", i, j - 1, (long)m, (long)n);
     mzd_write_bit(A, i, j - 1, 1);
   };
+  if (!feof(fh)) m4ri_die("'%s': entry list ends in something that is not a number\n", fn);
 
 from_jcf_close_fh:
   fclose(fh);
